@@ -1136,6 +1136,48 @@ def scenario_pickle(draw, exact_kw=None):
 
 
 @st.composite
+def scenario_helper_children(draw, exact_kw=None):
+    """A composite gets children the caller never asked for: min / max / exhaustive eval of a term over two otherwise
+    unconstrained variables leaves a helper constraint about that term behind (constraint expansion), in a child of its own, and
+    a query whose extra constraints mention only one of the two variables caches a solver for that variable alone.  Then a
+    constraint joins the group of a third variable with ONE of the two, later constraints narrow the third variable (possibly to
+    nothing) and finally mention only the OTHER of the two -- every lookup by a single variable has to find the merged child."""
+    names = tuple(draw(st.permutations(BVVARS)))
+    x, y, z = _v(names[0]), _v(names[1]), _v(names[2])
+    p = ("bvar", "p")
+    out = []
+    kc = lambda: _c(draw(st.sampled_from(CONSTS)))  # noqa: E731
+    g1 = [("or", ("eq", z, kc()), ("eq", z, kc())), ("or", p, ("ne", z, kc())), ("ule", z, kc()), ("ugt", z, _c(draw(st.sampled_from((0, 1, 2, 3)))))]
+    for c in draw(st.lists(st.sampled_from(g1), min_size=1, max_size=2, unique=True)):
+        out.append({"op": "add", "s": 0, "cs": [c], "as_list": False})
+    term = draw(st.sampled_from((("bvadd", x, y), ("bvxor", x, y), ("bvsub", x, y), ("bvor", x, y), ("concat", ("extract", 1, 0, x), ("extract", 1, 0, y)))))
+    out.append(draw(st.sampled_from(({"op": "min", "s": 0, "e": term, "signed": False, "extra": []}, {"op": "max", "s": 0, "e": term, "signed": draw(st.booleans()), "extra": []},
+                                     {"op": "eval", "s": 0, "e": term, "n": 300, "extra": []}, {"op": "eval", "s": 0, "e": term, "n": 2, "extra": []}))))
+    one = draw(st.sampled_from((x, y)))
+    other = y if one is x else x
+    only_one = draw(st.sampled_from((("eq", ("bvand", one, _c(1)), _c(1)), ("ult", one, kc()), ("ne", one, kc()))))
+    out.append(draw(st.sampled_from(({"op": "eval", "s": 0, "e": z, "n": 300, "extra": [only_one]}, {"op": "sat", "s": 0, "extra": [only_one]},
+                                     {"op": "eval", "s": 0, "e": one, "n": 2, "extra": []}, {"op": "max", "s": 0, "e": one, "signed": False, "extra": [only_one]}))))
+    if draw(st.integers(0, 3)) == 0:
+        out.append({"op": "branch", "s": 0})
+    t = draw(st.sampled_from((0, -1)))
+    bridge = draw(st.sampled_from((("or", p, ("eq", other, kc()), ("eq", other, kc())), ("ult", other, z), ("eq", ("bvand", other, z), _c(0)), ("or", ("eq", z, kc()), ("ugt", other, kc())))))
+    out.append({"op": "add", "s": t, "cs": [bridge], "as_list": False})
+    if draw(st.booleans()):
+        out.append({"op": "add", "s": t, "cs": [draw(st.sampled_from((("ult", z, _c(2)), ("ult", z, _c(1)), ("ugt", z, _c(14)), ("eq", z, kc()))))], "as_list": False})
+    out.append({"op": "add", "s": t, "cs": [only_one], "as_list": draw(st.booleans())})
+    for u in (0, -1):
+        out.append({"op": "sat", "s": u, "extra": []})
+        out.append({"op": "eval", "s": u, "e": z, "n": 300, "extra": []})
+        out.append({"op": "min", "s": u, "e": z, "signed": True, "extra": []})
+        out.append({"op": "batch", "s": u, "es": [x, y], "n": 300, "extra": []})
+        out.append({"op": "eval", "s": u, "e": one, "n": 300, "extra": []})
+    if exact_kw is not None:
+        out = [({**s_, "exact": draw(st.sampled_from(exact_kw))} if s_["op"] in ("sat", "eval", "batch", "min", "max") else s_) for s_ in out]
+    return out
+
+
+@st.composite
 def scenario_core(draw):
     """Unsatisfiability reached in the ways that take different routes to a core: a pairwise contradiction the cheap syntactic
     check recognises, one that only the solver finds (two or three constraints over two variables), False itself; the members
